@@ -176,3 +176,65 @@ impl TryRngCore for FallibleSourceUnit {
         self.0.try_fill_bytes(dst).map_err(|_| UnitError)
     }
 }
+
+
+// ------------------------------------------------------------------------------------------
+// Sources whose TYPE has size zero: a handle to state that lives elsewhere (what OsRng, ThreadRng-like
+// handles and `UnwrapErr<OsRng>` are). The real simulated source is parked in a thread-local slot
+// for the duration of the constructor call.
+// ------------------------------------------------------------------------------------------
+thread_local! {
+    static PARKED_SIM: std::cell::RefCell<Option<SimSource>> = const { std::cell::RefCell::new(None) };
+    static PARKED_FALLIBLE: std::cell::RefCell<Option<FallibleSource>> = const { std::cell::RefCell::new(None) };
+}
+
+/// registers the slots on the calling thread (see `Spec.thread` == 3: they must outlive the exit hook)
+pub fn touch_thread_locals() {
+    PARKED_SIM.with(|_| ());
+    PARKED_FALLIBLE.with(|_| ());
+}
+
+pub struct HandleSource;
+impl HandleSource {
+    pub fn park(s: SimSource) -> HandleSource {
+        PARKED_SIM.with(|p| *p.borrow_mut() = Some(s));
+        HandleSource
+    }
+    pub fn unpark(self) -> SimSource {
+        PARKED_SIM.with(|p| p.borrow_mut().take()).expect("harness: parked source")
+    }
+}
+impl RngCore for HandleSource {
+    fn next_u32(&mut self) -> u32 {
+        PARKED_SIM.with(|p| p.borrow_mut().as_mut().expect("harness: parked source").next_u32())
+    }
+    fn next_u64(&mut self) -> u64 {
+        PARKED_SIM.with(|p| p.borrow_mut().as_mut().expect("harness: parked source").next_u64())
+    }
+    fn fill_bytes(&mut self, dest: &mut [u8]) {
+        PARKED_SIM.with(|p| p.borrow_mut().as_mut().expect("harness: parked source").fill_bytes(dest))
+    }
+}
+
+pub struct HandleFallible;
+impl HandleFallible {
+    pub fn park(s: FallibleSource) -> HandleFallible {
+        PARKED_FALLIBLE.with(|p| *p.borrow_mut() = Some(s));
+        HandleFallible
+    }
+    pub fn unpark(self) -> FallibleSource {
+        PARKED_FALLIBLE.with(|p| p.borrow_mut().take()).expect("harness: parked source")
+    }
+}
+impl TryRngCore for HandleFallible {
+    type Error = SimError;
+    fn try_next_u32(&mut self) -> Result<u32, SimError> {
+        PARKED_FALLIBLE.with(|p| p.borrow_mut().as_mut().expect("harness: parked source").try_next_u32())
+    }
+    fn try_next_u64(&mut self) -> Result<u64, SimError> {
+        PARKED_FALLIBLE.with(|p| p.borrow_mut().as_mut().expect("harness: parked source").try_next_u64())
+    }
+    fn try_fill_bytes(&mut self, dst: &mut [u8]) -> Result<(), SimError> {
+        PARKED_FALLIBLE.with(|p| p.borrow_mut().as_mut().expect("harness: parked source").try_fill_bytes(dst))
+    }
+}
